@@ -58,17 +58,29 @@ type verifPair struct{ ps, pn, ss, sn string }
 
 func (p verifPair) id() string { return p.ps + ":" + p.pn + " " + p.ss + ":" + p.sn }
 
-// pairs 0..3 are connectable, pair 4 mismatches interfaces: its connect
-// task fails on its own inside the repository ("natural" failure).
+// pairs 0..4 are connectable (pair 4 shares no snap with the others, so a
+// request about it passes the conflict checks while a change about one of the
+// others is in progress); pair 5 mismatches interfaces: its connect task
+// fails on its own inside the repository ("natural" failure).
 var verifPairs = []verifPair{
 	{"consumer", "plug", "producer", "slot"},   // test  (auto-connects)
 	{"consumer", "mplug", "producer", "mslot"}, // test2 (manual only)
 	{"consumer", "mplug", "relay", "rslot"},    // test2 (manual only)
 	{"relay", "aplug", "producer", "aslot"},    // test3 (auto-connects)
+	{"alpha", "xplug", "beta", "xslot"},        // test4 (manual only)
 	{"consumer", "plug", "producer", "mslot"},  // test vs test2: cannot connect
 }
 
-var verifSnapNames = []string{"consumer", "producer", "relay"}
+const verifNGood = 5 // connectable pairs
+
+var verifPairIfaces = []string{"test", "test2", "test2", "test3", "test4"}
+
+var verifSnapNames = []string{"consumer", "producer", "relay", "alpha", "beta"}
+
+// the task kinds the statement of C07 calls interface-manipulating; used
+// only for the reach probes
+var verifIfaceKinds = map[string]bool{"connect": true, "disconnect": true, "setup-profiles": true, "remove-profiles": true,
+	"discard-conns": true, "auto-connect": true, "auto-disconnect": true}
 
 func verifHooksYaml(side string, names ...string) string {
 	s := "hooks:\n"
@@ -98,6 +110,18 @@ func verifSnapYaml(name string, hooks bool) string {
 		y := "name: relay\nversion: 1\nplugs:\n aplug:\n  interface: test3\nslots:\n rslot:\n  interface: test2\n"
 		if hooks {
 			y += "hooks:\n prepare-plug-aplug:\n connect-plug-aplug:\n disconnect-plug-aplug:\n connect-slot-rslot:\n disconnect-slot-rslot:\n"
+		}
+		return y
+	case "alpha":
+		y := "name: alpha\nversion: 1\nplugs:\n xplug:\n  interface: test4\n"
+		if hooks {
+			y += verifHooksYaml("plug", "xplug")
+		}
+		return y
+	case "beta":
+		y := "name: beta\nversion: 1\nslots:\n xslot:\n  interface: test4\n"
+		if hooks {
+			y += "hooks:\n connect-slot-xslot:\n disconnect-slot-xslot:\n"
 		}
 		return y
 	}
@@ -159,7 +183,7 @@ func (b *verifSecBackend) Setup(appSet *interfaces.SnapAppSet, opts interfaces.C
 	}
 	// park (only from a task handler, never while somebody holds the state lock)
 	if cur != nil && e.parkOn && !e.in.st.VerifLockHeld() {
-		e.park("setup "+name, nil)
+		e.park("setup", "setup "+name+" in "+cur.which+" "+cur.label, cur, nil)
 	}
 	refs, _ := repo.Connections(name)
 	ids := make([]string, 0, len(refs))
@@ -228,10 +252,19 @@ func (p *verifPlan) faultName() string {
 	return "natural"
 }
 
-type verifCur struct{ chg, which, kind string }
+// verifCur identifies the task whose handler goroutine is the one running:
+// exactly one goroutine of the system under test runs between two quiescent
+// points (the scheduler releases one parked goroutine and waits), so a single
+// variable, set at release time from the released gate, is enough for the
+// backend stub to know who is calling.
+type verifCur struct{ chg, which, kind, label string }
 
+// a parked goroutine: before the body of a handler ("start"), inside the
+// hook runner ("hook"), inside a backend Setup call ("setup")
 type verifGate struct {
+	kind  string
 	label string
+	cur   *verifCur
 	ch    chan struct{}
 }
 
@@ -253,7 +286,8 @@ type verifEnv struct {
 	parkOn   bool
 	hooks    map[string]bool
 	mu       sync.Mutex
-	gate     *verifGate
+	gates    []*verifGate
+	killed   []string // labels of hook goroutines that woke up because their tomb is dying
 	plans    map[string]*verifPlan
 	cur      *verifCur
 	profiles map[string]*verifProfile
@@ -261,38 +295,67 @@ type verifEnv struct {
 	sysKey   int
 	startup  []string
 	progress bool // a handler started since the flag was cleared
+
+	ifaceRunning int             // interface-manipulating handlers past their start gate
+	heldSeen     map[string]bool // interface tasks already counted as held back
 }
 
-func (e *verifEnv) park(label string, dying <-chan struct{}) bool {
-	g := &verifGate{label: label, ch: make(chan struct{})}
+// park blocks the calling goroutine (which must hold neither the state lock
+// nor the runner's lock) until the scheduler releases it; false: snapd is
+// stopping. Nothing is logged or counted on the way in: several goroutines
+// may arrive here between two quiescent points, in any order.
+func (e *verifEnv) park(kind, label string, cur *verifCur, dying <-chan struct{}) bool {
+	g := &verifGate{kind: kind, label: label, cur: cur, ch: make(chan struct{})}
 	e.mu.Lock()
-	e.gate = g
+	e.gates = append(e.gates, g)
 	e.mu.Unlock()
 	select {
 	case <-g.ch:
 		return true
 	case <-dying:
 		e.mu.Lock()
-		if e.gate == g {
-			e.gate = nil
+		for i, x := range e.gates {
+			if x == g {
+				e.gates = append(e.gates[:i], e.gates[i+1:]...)
+				break
+			}
 		}
+		e.killed = append(e.killed, label)
 		e.mu.Unlock()
 		return false
 	}
 }
 
-func (e *verifEnv) takeGate() *verifGate {
+func (e *verifEnv) drainKilled() []string {
 	e.mu.Lock()
-	defer e.mu.Unlock()
-	g := e.gate
-	e.gate = nil
-	return g
+	killed := e.killed
+	e.killed = nil
+	e.mu.Unlock()
+	sort.Strings(killed)
+	return killed
 }
 
-func (e *verifEnv) peekGate() *verifGate {
+// parked returns the parked goroutines in canonical (label) order.
+func (e *verifEnv) parked() []*verifGate {
 	e.mu.Lock()
 	defer e.mu.Unlock()
-	return e.gate
+	sort.Slice(e.gates, func(i, j int) bool { return e.gates[i].label < e.gates[j].label })
+	return append([]*verifGate(nil), e.gates...)
+}
+
+// release lets one parked goroutine run until it parks again or finishes.
+func (e *verifEnv) release(g *verifGate) {
+	e.mu.Lock()
+	for i, x := range e.gates {
+		if x == g {
+			e.gates = append(e.gates[:i], e.gates[i+1:]...)
+			break
+		}
+	}
+	e.mu.Unlock()
+	e.cur = g.cur
+	close(g.ch)
+	synctest.Wait()
 }
 
 // runHook stands in for "snap run --hook".
@@ -341,9 +404,8 @@ func (e *verifEnv) runHook(ctx *hookstate.Context, tb *tomb.Tomb) ([]byte, error
 		ctx.Unlock()
 	}
 	if e.parkOn {
-		if !e.park("hook "+name+" of "+snapName, tb.Dying()) {
-			e.c.Logf("  hook %s of %s killed (snapd stopping)", name, snapName)
-			e.c.Count("probe:hook-killed-by-stop")
+		if !e.park("hook", "hook "+name+" of "+snapName+" in "+e.cur.which+" "+e.cur.label, e.cur, tb.Dying()) {
+			// (logged and counted by restart(): several goroutines wake up at once)
 			return nil, errors.New("verif: hook killed")
 		}
 	}
@@ -461,6 +523,7 @@ func (e *verifEnv) newInstance(data []byte) *verifInst {
 		&ifacetest.TestInterface{InterfaceName: "test"},
 		&ifacetest.TestInterface{InterfaceName: "test2", AutoConnectCallback: func(*snap.PlugInfo, *snap.SlotInfo) bool { return false }},
 		&ifacetest.TestInterface{InterfaceName: "test3"},
+		&ifacetest.TestInterface{InterfaceName: "test4", AutoConnectCallback: func(*snap.PlugInfo, *snap.SlotInfo) bool { return false }},
 	}, nil)
 	if err != nil {
 		c.Fatalf("ifacestate.Manager: %v", err)
@@ -470,9 +533,10 @@ func (e *verifEnv) newInstance(data []byte) *verifInst {
 	o.AddManager(mgr)
 	verifAddSnapstateHandlers(in.runner)
 	o.AddManager(in.runner)
-	// strictly one handler at a time: the property is not about overlap
-	// and this keeps the event log a function of the tape
-	in.runner.AddBlocked(func(_ *state.Task, running []*state.Task) bool { return len(running) > 0 })
+	// No blocking predicate of the simulator's own: which tasks may run
+	// together is decided by the real predicates (interface manager, hook
+	// manager) alone. Every handler parks before its body; the scheduler
+	// releases one parked goroutine at a time.
 	in.runner.VerifWrapHandlers(func(_, which string, h state.HandlerFunc) state.HandlerFunc {
 		if which == "cleanup" {
 			return h
@@ -486,6 +550,12 @@ func (e *verifEnv) newInstance(data []byte) *verifInst {
 			kind := t.Kind()
 			id := verifTaskLabel(t)
 			st.Unlock()
+			cur := &verifCur{chg: chgID, which: which, kind: kind, label: id}
+			// A handler body that has not begun is not interrupted by anything
+			// (the runner kills the tomb of an aborted task and of every task
+			// when stopping; real handler bodies start regardless): the gate
+			// opens only when the scheduler says so.
+			e.park("start", "start "+which+" "+id, cur, nil)
 			plan := e.plans[chgID]
 			c.Logf(" %s %s", which, id)
 			if which == "undo" {
@@ -494,6 +564,9 @@ func (e *verifEnv) newInstance(data []byte) *verifInst {
 					c.Count("probe:undo-connect")
 				case "disconnect":
 					c.Count("probe:undo-disconnect")
+					if plan != nil && plan.op == "forget-inactive" {
+						c.Count("probe:undo-of-forget-of-inactive-connection")
+					}
 				case "setup-profiles", "remove-profiles":
 					c.Count("probe:undo-profiles")
 				case "discard-conns":
@@ -516,10 +589,27 @@ func (e *verifEnv) newInstance(data []byte) *verifInst {
 					return errors.New("verif: injected task failure")
 				}
 			}
-			e.cur = &verifCur{chg: chgID, which: which, kind: kind}
-			defer func() { e.cur = nil }()
 			e.progress = true
+			if verifIfaceKinds[kind] {
+				e.ifaceRunning++
+				if e.ifaceRunning > 1 {
+					c.Count("two-interface-handlers-in-flight")
+					c.Logf("  (another interface handler is in flight)")
+				}
+			}
 			err := h(t, tb)
+			// from here on only the goroutine's own bookkeeping: when snapd
+			// is stopping several killed goroutines get here at once
+			e.mu.Lock()
+			if verifIfaceKinds[kind] {
+				e.ifaceRunning--
+			}
+			e.mu.Unlock()
+			select {
+			case <-tb.Dying():
+				return err
+			default:
+			}
 			if _, ok := err.(*state.Retry); ok {
 				c.Count("probe:task-asked-for-retry")
 				c.Logf("  -> retry later")
@@ -529,6 +619,8 @@ func (e *verifEnv) newInstance(data []byte) *verifInst {
 	})
 	e.in = in
 	e.startup = nil
+	e.cur = nil
+	e.ifaceRunning = 0
 	if err := o.StartUp(); err != nil {
 		c.Fatalf("StartUp: %v", err)
 	}
@@ -688,26 +780,36 @@ func verifRebase(pre, before, after map[string]string) {
 
 func (e *verifEnv) restart(op string, pres []*verifSnapshot) {
 	c := e.c
-	if g := e.peekGate(); g != nil && strings.HasPrefix(g.label, "setup ") {
-		e.takeGate()
-		close(g.ch)
-		synctest.Wait()
-		// the handler may go on to further backend calls
-		for i := 0; i < 20; i++ {
-			g := e.peekGate()
-			if g == nil || !strings.HasPrefix(g.label, "setup ") {
+	// Stop() waits for every handler: a body that was about to begin runs, a
+	// backend call cannot be interrupted (the handler may go on to further
+	// backend calls); only goroutines inside the hook runner see their tomb
+	// dying and give up
+	for i := 0; ; i++ {
+		var g *verifGate
+		for _, x := range e.parked() {
+			if x.kind != "hook" {
+				g = x
 				break
 			}
-			e.takeGate()
-			close(g.ch)
-			synctest.Wait()
 		}
+		if g == nil {
+			break
+		}
+		if i > 200 {
+			c.Fatalf("handlers do not finish before the restart: %s", g.label)
+		}
+		c.Logf("  release %s (snapd stopping)", g.label)
+		e.release(g)
 	}
 	old := e.in
 	old.o.Stop()
 	synctest.Wait()
-	if g := e.peekGate(); g != nil {
-		c.Fatalf("a handler is still parked after Stop: %s", g.label)
+	if gs := e.parked(); len(gs) > 0 {
+		c.Fatalf("a handler is still parked after Stop: %s", gs[0].label)
+	}
+	for _, l := range e.drainKilled() {
+		c.Logf("  killed by stop: %s", l)
+		c.Count("probe:hook-killed-by-stop")
 	}
 	before := e.snapshot()
 	old.be.discard = true
@@ -862,8 +964,9 @@ func verifSideInfo(name string) *snap.SideInfo {
 // submit asks snapd for one operation, chosen by looking at the current
 // situation (mostly) or blindly (sometimes). It returns nil when the
 // operation was a restart or was refused.
-func (e *verifEnv) submit(label string, overlapping bool, withFault bool, step int) *verifChange {
+func (e *verifEnv) submit(label string, first *verifChange, withFault bool, step int) *verifChange {
 	c := e.c
+	overlapping := first != nil
 	st := e.in.st
 	repo := e.in.mgr.Repository()
 	pre := e.snapshot()
@@ -874,13 +977,13 @@ func (e *verifEnv) submit(label string, overlapping bool, withFault bool, step i
 	var canConnect, canDisconnect, canForget []verifPair
 	for i, p := range verifPairs {
 		if _, active := pre.active[p.id()]; !active && present[p.ps] && present[p.ss] {
-			if i == 4 && !c.Chance("op.mismatched-pair", 1, 4) {
+			if i == verifNGood && !c.Chance("op.mismatched-pair", 1, 4) {
 				continue
 			}
 			canConnect = append(canConnect, p)
 		}
 	}
-	for _, p := range verifPairs[:4] {
+	for _, p := range verifPairs[:verifNGood] {
 		if _, ok := pre.active[p.id()]; ok {
 			canDisconnect = append(canDisconnect, p)
 		}
@@ -895,6 +998,27 @@ func (e *verifEnv) submit(label string, overlapping bool, withFault bool, step i
 		} else {
 			canInstall = append(canInstall, n)
 		}
+	}
+	if overlapping && len(first.targets) > 0 && c.Chance("op.overlap-disjoint", 1, 2) {
+		// a request that shares no snap with the change in progress (and
+		// therefore passes the conflict checks)
+		busy := map[string]bool{}
+		for _, id := range first.targets {
+			if ref, err := interfaces.ParseConnRef(id); err == nil {
+				busy[ref.PlugRef.Snap] = true
+				busy[ref.SlotRef.Snap] = true
+			}
+		}
+		free := func(ps []verifPair) []verifPair {
+			var r []verifPair
+			for _, p := range ps {
+				if !busy[p.ps] && !busy[p.ss] {
+					r = append(r, p)
+				}
+			}
+			return r
+		}
+		canConnect, canDisconnect, canForget = free(canConnect), free(canDisconnect), free(canForget)
 	}
 	var kinds []string
 	add := func(k string, w int, ok bool) {
@@ -913,7 +1037,7 @@ func (e *verifEnv) submit(label string, overlapping bool, withFault bool, step i
 	if opk == "blind" {
 		// not looking at the situation: may well be refused
 		opk = []string{"connect", "disconnect", "forget", "install", "remove"}[c.Draw("op.blind", 5)]
-		canConnect, canDisconnect, canForget = verifPairs, verifPairs[:4], verifPairs[:4]
+		canConnect, canDisconnect, canForget = verifPairs, verifPairs[:verifNGood], verifPairs[:verifNGood]
 		canInstall, canRemove = verifSnapNames, verifSnapNames
 		c.Count("op-blind")
 	}
@@ -961,11 +1085,13 @@ func (e *verifEnv) submit(label string, overlapping bool, withFault bool, step i
 				apiErr = err
 				return
 			}
+			inactive := 0
 			for _, ref := range refs {
 				var ts *state.TaskSet
 				if forget {
 					if _, cerr := repo.Connection(ref); cerr != nil {
 						c.Count("probe:forget-inactive-connection")
+						inactive++
 					}
 					ts, err = ifacestate.Forget(st, repo, ref)
 				} else {
@@ -982,6 +1108,11 @@ func (e *verifEnv) submit(label string, overlapping bool, withFault bool, step i
 				}
 				tss = append(tss, ts)
 				ch.targets = append(ch.targets, ref.ID())
+			}
+			if forget && inactive > 0 && inactive == len(refs) {
+				// forgetting only remembered, not established connections is
+				// a different request as far as classes go
+				plan.op = "forget-inactive"
 			}
 		})
 	case "install":
@@ -1070,7 +1201,11 @@ func (e *verifEnv) submit(label string, overlapping bool, withFault bool, step i
 			plan.at = c.Draw("fault.setup", 6)
 		case 6:
 			plan.kind = verifFaultAbort
-			plan.at = c.Draw("fault.step", 32)
+			if c.Chance("fault.step-late", 1, 2) {
+				plan.at = c.Draw("fault.step", 48)
+			} else {
+				plan.at = c.Draw("fault.step", 6)
+			}
 		}
 	}
 	if !overlapping && c.Chance("restart.mid-change", 1, 8) {
@@ -1101,8 +1236,8 @@ func (e *verifEnv) driveAll(first *verifChange, overlapAt int, faultsOn bool) ([
 	active := []*verifChange{first}
 	idle := 0
 	for step := 1; ; step++ {
-		if step > 600 {
-			c.Fatalf("change %s (%s) does not settle within 600 simulator steps: %s", first.id, first.summary, e.statusLine(first.id))
+		if step > 1500 {
+			c.Fatalf("change %s (%s) does not settle within 1500 simulator steps: %s", first.id, first.summary, e.statusLine(first.id))
 		}
 		if err := e.in.o.StateEngine().Ensure(); err != nil {
 			c.Logf("ensure: %v", err)
@@ -1119,14 +1254,21 @@ func (e *verifEnv) driveAll(first *verifChange, overlapAt int, faultsOn bool) ([
 			}
 		}
 		st.Unlock()
-		g := e.peekGate()
-		if allReady && g == nil {
+		// the ensure pass kills the tomb of every aborted task: a hook in
+		// flight dies like the real hook process would
+		for _, l := range e.drainKilled() {
+			c.Logf("  killed by abort: %s", l)
+			c.Count("probe:hook-killed-by-abort")
+		}
+		gates := e.parked()
+		if allReady && len(gates) == 0 {
 			return active, true
 		}
+		e.reachProbes(active)
 		if overlapAt != 0 && step == overlapAt && len(active) == 1 {
 			// a second request arrives while the first change is in progress;
 			// only one of the two carries a failure point
-			second := e.submit(fmt.Sprintf("  OVERLAP at step %d", step), true, faultsOn && first.plan.kind == verifFaultNone, step)
+			second := e.submit(fmt.Sprintf("  OVERLAP at step %d", step), first, faultsOn && first.plan.kind == verifFaultNone, step)
 			if second != nil {
 				active = append(active, second)
 			}
@@ -1150,8 +1292,11 @@ func (e *verifEnv) driveAll(first *verifChange, overlapAt int, faultsOn bool) ([
 				}
 				p.fired = true
 				c.Count("fault:abort")
-				if g != nil {
-					c.Count("probe:abort-while-handler-in-flight")
+				for _, g := range gates {
+					if g.cur != nil && g.cur.chg == ch.id {
+						c.Count("probe:abort-while-handler-in-flight")
+						break
+					}
 				}
 				c.Logf("ABORT change %s at step %d: %s", ch.id, step, e.statusLine(ch.id))
 				aborted = true
@@ -1163,7 +1308,7 @@ func (e *verifEnv) driveAll(first *verifChange, overlapAt int, faultsOn bool) ([
 		if p := first.plan; p.restartAt != 0 && !p.restarted && step == p.restartAt {
 			p.restarted = true
 			c.Count("probe:restart-mid-change")
-			if g != nil {
+			if len(gates) > 0 {
 				c.Count("probe:restart-while-handler-in-flight")
 			}
 			c.Logf("restart in the middle of change %s at step %d: %s", first.id, step, e.statusLine(first.id))
@@ -1177,11 +1322,17 @@ func (e *verifEnv) driveAll(first *verifChange, overlapAt int, faultsOn bool) ([
 			}
 			continue
 		}
-		if g != nil {
-			e.takeGate()
-			c.Logf("  release %s", g.label)
-			close(g.ch)
-			synctest.Wait()
+		if len(gates) > 0 {
+			// which of the parked goroutines proceeds is the tape's choice
+			g := gates[0]
+			if len(gates) > 1 {
+				g = gates[c.Draw("sched", len(gates))]
+				c.Count("probe:scheduler-had-a-choice")
+				c.Logf("  release %s (%d parked)", g.label, len(gates))
+			} else if g.kind != "start" {
+				c.Logf("  release %s", g.label)
+			}
+			e.release(g)
 			idle = 0
 			continue
 		}
@@ -1191,6 +1342,22 @@ func (e *verifEnv) driveAll(first *verifChange, overlapAt int, faultsOn bool) ([
 			continue
 		}
 		idle++
+		if idle > 60 {
+			// Half a simulated minute of ensure passes that start nothing,
+			// with nothing in flight: the change will never settle. The
+			// statement only speaks about settled changes, so this is no
+			// verdict of C22; the run ends here (the stuck change blocks
+			// further requests on its snaps). Seen when an abort arrives
+			// after the runner marked auto-connect / auto-disconnect as
+			// Doing and before its handler body ran: the handler injects
+			// tasks in Do status that wait for it while it goes to Undo and
+			// waits for them (see NOTES.md).
+			c.Count("stalled-change-abandoned")
+			for _, ch := range active {
+				c.Logf("STALLED change %s: %s", ch.id, e.statusLine(ch.id))
+			}
+			return active, false
+		}
 		if idle >= 2 {
 			// nothing running, nothing was started by two ensure passes:
 			// tasks wait for a retry time
@@ -1198,6 +1365,55 @@ func (e *verifEnv) driveAll(first *verifChange, overlapAt int, faultsOn bool) ([
 			synctest.Wait()
 			c.Count("probe:clock-advanced-for-retry")
 			c.Logf("  clock +500ms")
+		}
+	}
+}
+
+// reachProbes makes visible whether two interface-manipulating tasks could
+// have overlapped: a runnable one that the runner did not start while the
+// handler of another is in flight was held back by the real predicate.
+func (e *verifEnv) reachProbes(active []*verifChange) {
+	if e.ifaceRunning == 0 {
+		return
+	}
+	st := e.in.st
+	st.Lock()
+	defer st.Unlock()
+	now := time.Now()
+	for _, ch := range active {
+		chg := st.Change(ch.id)
+		if chg == nil {
+			continue
+		}
+		for _, t := range chg.Tasks() {
+			if !verifIfaceKinds[t.Kind()] || t.AtTime().After(now) {
+				continue
+			}
+			runnable := false
+			switch t.Status() {
+			case state.DoStatus:
+				runnable = true
+				for _, w := range t.WaitTasks() {
+					if w.Status() != state.DoneStatus {
+						runnable = false
+					}
+				}
+			case state.UndoStatus:
+				runnable = true
+				for _, h := range t.HaltTasks() {
+					if !h.Status().Ready() {
+						runnable = false
+					}
+				}
+			}
+			if !runnable {
+				continue
+			}
+			key := t.Status().String() + " " + verifTaskLabel(t)
+			if !e.heldSeen[key] {
+				e.heldSeen[key] = true
+				e.c.Count("probe:interface-task-held-back-while-another-in-flight")
+			}
 		}
 	}
 }
@@ -1408,7 +1624,7 @@ func verifRunC22(c *verifsim.Ctx) {
 	})
 
 	verifLabels = map[string]string{}
-	e := &verifEnv{c: c, db: verifDB, plans: map[string]*verifPlan{}, profiles: map[string]*verifProfile{}, hooks: map[string]bool{}}
+	e := &verifEnv{c: c, db: verifDB, plans: map[string]*verifPlan{}, profiles: map[string]*verifProfile{}, hooks: map[string]bool{}, heldSeen: map[string]bool{}}
 	be := &verifSecBackend{e: e}
 	restores = append(restores, ifacestate.MockSecurityBackends([]interfaces.SecurityBackend{be}))
 	restores = append(restores, hookstate.MockRunHook(e.runHook))
@@ -1421,7 +1637,9 @@ func verifRunC22(c *verifsim.Ctx) {
 	e.hooks["consumer"] = hv >= 1
 	e.hooks["producer"] = hv >= 2
 	e.hooks["relay"] = hv >= 3
-	absent := c.Draw("cfg.absent-snap", 4) // 0: all three installed
+	e.hooks["alpha"] = hv >= 3
+	e.hooks["beta"] = hv >= 3
+	absent := c.Draw("cfg.absent-snap", 6) // 0: all five installed
 	nops := 1 + c.Draw("cfg.nops", 8)
 	if c.Tier == "thorough" {
 		nops += c.Draw("cfg.nops-more", 5)
@@ -1465,12 +1683,12 @@ func verifRunC22(c *verifsim.Ctx) {
 			snapstate.Set(ist, name, &snapstate.SnapState{Active: true, Sequence: snapstatetest.NewSequenceFromSnapSideInfos([]*snap.SideInfo{si}), Current: si.Revision, SnapType: "app"})
 		}
 		conns := map[string]interface{}{}
-		for i, p := range verifPairs[:4] {
+		for i, p := range verifPairs[:verifNGood] {
 			if !present[p.ps] || !present[p.ss] {
 				continue
 			}
-			iface := []string{"test", "test2", "test2", "test3"}[i]
-			auto := iface != "test2"
+			iface := verifPairIfaces[i]
+			auto := iface == "test" || iface == "test3"
 			// as doConnect / doDisconnect leave them
 			entry := map[string]interface{}{"interface": iface}
 			if i == 0 {
@@ -1499,14 +1717,14 @@ func verifRunC22(c *verifsim.Ctx) {
 		e.newInstance(ibe.last)
 	}
 	defer func() {
-		// leave nothing behind in the bubble
-		for i := 0; i < 50; i++ {
-			g := e.takeGate()
-			if g == nil {
+		// leave nothing behind in the bubble: let what is in flight finish,
+		// still one goroutine at a time (no ensure pass starts anything new)
+		for i := 0; i < 1000; i++ {
+			gs := e.parked()
+			if len(gs) == 0 {
 				break
 			}
-			close(g.ch)
-			synctest.Wait()
+			e.release(gs[0])
 		}
 		e.in.o.Stop()
 		synctest.Wait()
@@ -1522,7 +1740,7 @@ func verifRunC22(c *verifsim.Ctx) {
 		if len(c.Violations) > 0 {
 			return
 		}
-		first := e.submit(fmt.Sprintf("OP %d", opi), false, faultsOn, 0)
+		first := e.submit(fmt.Sprintf("OP %d", opi), nil, faultsOn, 0)
 		if first == nil {
 			continue
 		}
